@@ -18,7 +18,10 @@ def run(ctx):
     ctx.assumptions = ["the independent registry copy (harness/spec_iana.py, lean/TLX/Spec/IanaRegistry.lean) was written "
                        "from memory of the IANA registry; a disagreement with the source table is adjudicated against the RFCs"]
     ctx.gen_tables = extract.all_tables()
-    ctx.prove(["TLX.Props.C14"])
+    import translate                 # decision-logic functions re-translated from the source and proved equal to the model
+    _tm, _tt = translate.wire(ctx, "C14")
+    ctx.prove(["TLX.Props.C14"] + _tm)
+    ctx.require_theorems(_tt)
     ctx.require_theorems(THEOREMS)
 
     import tlexport.cipher_suite_parser as csp
